@@ -5,7 +5,7 @@ for D in ${BENIGN:-benign/C*-*}; do
   ID=$(basename $D); P=${ID%%-*}
   cd /repo; [ -n "$(git status --porcelain)" ] && { echo "repo dirty"; exit 2; }
   git apply /verif/$D/patch.diff 2>/dev/null || { echo "BENIGN $ID: patch does not apply"; continue; }
-  cd /verif && ./check $P > /tmp/benign_$ID.out 2>&1; rc=$?
+  cd /verif && VERIF_EVIDENCE_DIR=/tmp/verif-exp-evidence ./check $P > /tmp/benign_$ID.out 2>&1; rc=$?
   cd /repo && git checkout -q -- . && git clean -fdq -- pkg apis cmd 2>/dev/null
   echo "BENIGN $ID rc=$rc $(grep -c 'violated\|undecided' /tmp/benign_$ID.out) $(grep -h normalisation: /tmp/benign_$ID.out)"
   cd /verif
